@@ -185,6 +185,18 @@ class LazyWorld:
             I.classes[q].attrs = dict(a)
         for k, v in mcache.items():
             I.module_cache[k] = _cp(v, memo)
+        # module-level values evaluated after the snapshot was taken (e.g. `_DEFAULT = Record()` of a loader module)
+        # refer to heap objects the restored state does not have: forget them, they are evaluated again on demand
+        def dangling(v, depth=0):
+            if isinstance(v, SymObj):
+                return v.id not in I.heap
+            if depth < 3 and isinstance(v, (list, tuple)):
+                return any(dangling(x, depth + 1) for x in v)
+            if depth < 3 and isinstance(v, dict):
+                return any(dangling(x, depth + 1) for x in v.values())
+            return False
+        for k in [k for k, v in I.module_cache.items() if k not in mcache and dangling(v)]:
+            del I.module_cache[k]
         self.frame.vars = _cp(fvars, memo)
 
     # ------------------------------------------------------------------ atoms
